@@ -177,7 +177,7 @@ func TestC19DeadlineAsync(t *testing.T) { pbt.Check(t, specDeadlineAsync) }
 var specTimedAsync = pbt.Register(&pbt.Spec[TCase]{
 	Property: "C19", Name: "C19.timedasync",
 	Rule: "C19.timed in a process running with GODEBUG=asynctimerchan=1 (pre-Go-1.23 timer channels)",
-	Gen:  genTimed, Run: RunTimed, Quick: 600, Thorough: 6000, Crashy: true, Retries: 20,
+	Gen:  genTimed, Run: RunTimed, Quick: 600, Thorough: 3000, Crashy: true, Retries: 20,
 })
 
 func TestC19TimedAsync(t *testing.T) { pbt.Check(t, specTimedAsync) }
